@@ -328,10 +328,13 @@ func (r *recorder) recordIncomingRTCP(latestStats internalStats, incoming *incom
 		case *rtcp.ReceiverReport:
 			latestStats = r.recordIncomingRR(latestStats, pkt.Reports, incoming.ts)
 		case *rtcp.SenderReport:
-			latestStats.RemoteOutboundRTPStreamStats.PacketsSent = uint64(pkt.PacketCount)
-			latestStats.RemoteOutboundRTPStreamStats.BytesSent = uint64(pkt.OctetCount)
-			latestStats.RemoteTimeStamp = ntp.ToTime(pkt.NTPTime)
-			latestStats.ReportsSent++
+			if pkt.SSRC == r.ssrc {
+				// the sender info describes the stream of the report's sender only
+				latestStats.RemoteOutboundRTPStreamStats.PacketsSent = uint64(pkt.PacketCount)
+				latestStats.RemoteOutboundRTPStreamStats.BytesSent = uint64(pkt.OctetCount)
+				latestStats.RemoteTimeStamp = ntp.ToTime(pkt.NTPTime)
+				latestStats.ReportsSent++
+			}
 			latestStats = r.recordIncomingRR(latestStats, pkt.Reports, incoming.ts)
 
 		case *rtcp.ExtendedReport:
